@@ -171,7 +171,21 @@ public:
 			for (int i = shown; i < cap; i++) if (buf[i] != ' ') pad_ok = false;
 			bool guard_ok = true;
 			for (int i = cap; i < cap + 8; i++) if (buf[i] != '#') guard_ok = false;
-			std::string r = "\"r\":" + jstr(std::string(&buf[0], shown)) + ",\"flen\":" + jnum(len) + ",\"pad_ok\":" + (pad_ok ? "1" : "0") + ",\"guard_ok\":" + (guard_ok ? "1" : "0");
+			// the same getter into buffers that fit exactly / are too short: the first cap characters, the full length reported, nothing written past cap
+			bool short_ok = true;
+			std::string wide(&buf[0], shown);
+			if (len == shown && len >= 1) {
+				int caps[3] = { len, len - 1, 1 };
+				for (int ci = 0; ci < 3; ci++) {
+					int c2 = caps[ci];
+					if (c2 < 1) continue;
+					std::vector<char> b2(c2 + 8, '#'); int l2 = c2;
+					f(&b2[0], &l2);
+					if (l2 != len || std::string(&b2[0], c2) != wide.substr(0, c2)) short_ok = false;
+					for (int i = c2; i < c2 + 8; i++) if (b2[i] != '#') short_ok = false;
+				}
+			}
+			std::string r = "\"r\":" + jstr(wide) + ",\"flen\":" + jnum(len) + ",\"pad_ok\":" + (pad_ok ? "1" : "0") + ",\"guard_ok\":" + (guard_ok ? "1" : "0") + ",\"short_ok\":" + (short_ok ? "1" : "0");
 			return r;
 		}
 		return "\"r\":null";
@@ -253,6 +267,18 @@ public:
 					if (slen > cap && attempt == 0 && (vt == TT_STRING)) { cap = slen + 16; continue; }
 					int shown = slen < cap ? slen : cap; if (shown < 0) shown = 0;
 					if (vt == TT_STRING || vt == TT_DOUBLE) { sv.assign(&buf[0], shown); for (int i = shown; i < cap; i++) if (buf[i] != ' ') pad_ok = false; }
+					if (vt == TT_STRING && slen == shown && slen >= 1) {
+						// exact-fit and too-short buffers (see fstr_call); a failure is reported through pad_ok
+						int caps[3] = { slen, slen - 1, 1 };
+						for (int ci = 0; ci < 3; ci++) {
+							int c2 = caps[ci];
+							if (c2 < 1) continue;
+							std::vector<char> b2(c2 + 8, '#'); int l2 = c2, vt2 = -99; double d2 = 0;
+							GetSelectedOutputValueF(pid, &row, &col, &vt2, &d2, &b2[0], &l2);
+							if (vt2 != TT_STRING || l2 != slen || std::string(&b2[0], c2) != sv.substr(0, c2)) pad_ok = false;
+							for (int i = c2; i < c2 + 8; i++) if (b2[i] != '#') pad_ok = false;
+						}
+					}
 					break;
 				}
 				std::string r = "\"r\":" + jnum((long)rr) + ",\"vt\":" + jnum(vt) + ",\"d\":" + jdbl(d) + ",\"s\":" + jstr(sv) + ",\"flen\":" + jnum(slen) + ",\"pad_ok\":" + (pad_ok ? "1" : "0");
